@@ -2,8 +2,13 @@
   C22 — Classic VI results do not depend on the number of MPI tasks.
   Property theorems only (helper lemmas live in Lemmas/). Obligations are listed in harness/props/c22.py.
   `Gen.shareRange` is regenerated from nifty/cl/utilities.py on every run (translator T3).
+  Part 1: shareRange is an ordered exact fair partition.  Part 2 (Model/Distributed.lean = draw_samples' loop,
+  _compute_local_indices): every task computes, for each of its global indices, exactly what the serial loop computes
+  for that index; the tasks' results in rank order are the serial list; averages go through C23's fixed tree.
 -/
 import NiftyVerif.Gen.ShareRange
+import NiftyVerif.Lemmas.Distributed
+import NiftyVerif.Props.C23
 import Mathlib.Tactic.Ring
 import Mathlib.Tactic.Linarith
 
@@ -90,5 +95,210 @@ theorem shareRange_disjoint (n p r s i : Nat)
 example : (shareRange 7 3 0, shareRange 7 3 1, shareRange 7 3 2) = ((0, 3), (3, 5), (5, 7)) := by decide
 -- more shares than items: empty shares at the end
 example : (shareRange 2 4 1, shareRange 2 4 2, shareRange 2 4 3) = ((1, 2), (2, 2), (2, 2)) := by decide
+
+/-! ### Part 2: the per-sample work and its reduction do not depend on the partition -/
+
+open NiftyVerif.Distributed NiftyVerif.Allreduce
+
+/-- **mirror_pair_same_seed**: with mirrored samples the work items `2k` and `2k+1` use the same seed sequence
+    (index `k` of the spawned list), and exactly the odd one is negated -/
+theorem mirror_pair_same_seed (k : Nat) :
+    seedIdx true (2 * k) = k ∧ seedIdx true (2 * k + 1) = k ∧ isNeg true (2 * k) = false ∧ isNeg true (2 * k + 1) = true := by
+  refine ⟨?_, ?_, ?_, ?_⟩
+  · simp [seedIdx]
+  · simp only [seedIdx, if_true]; omega
+  · simp [isNeg]
+  · simp [isNeg, Nat.add_mod]
+
+/-- **odd_start_redraws_same_y**: a task whose range starts at an odd (negated) index has `y = None`, draws, and
+    obtains exactly the `y` its even partner got on the other task — for any continuation of its range -/
+theorem odd_start_redraws_same_y {Y} (draw : Nat → Y) (k : Nat) (rest : List Nat) :
+    (localLoop draw true ((2 * k + 1) :: rest) none).head? = some (draw k, true) ∧
+    (localLoop draw true [2 * k] none).head? = some (draw k, false) := by
+  obtain ⟨h0, h1, h2, h3⟩ := mirror_pair_same_seed k
+  constructor
+  · simp [localLoop, nextY, h1, h3]
+  · simp [localLoop, nextY, h0, h2]
+
+theorem localIndices_eq (n p k : Nat) :
+    localIndices n p k = List.range' (lo n p k) (lo n p (k + 1) - lo n p k) := by
+  simp only [localIndices, lo]
+  rw [show (shareRange n p (k + 1)).1 = (shareRange n p k).2 from (shareRange_consecutive n p k).symm]
+
+/-- the index ranges of the tasks, concatenated in rank order, are `0, 1, …, n-1` -/
+theorem localIndices_concat (n p : Nat) (hp : 0 < p) :
+    (List.range p).flatMap (localIndices n p) = List.range n := by
+  have key : ∀ k, (List.range k).flatMap (localIndices n p) = List.range' 0 (lo n p k) := by
+    intro k
+    induction k with
+    | zero => simp [shareRange_starts_at_zero]
+    | succ k ih =>
+      rw [List.range_succ, List.flatMap_append, ih]
+      simp only [List.flatMap_cons, List.flatMap_nil, List.append_nil]
+      have h1 := localIndices_eq n p k
+      have h2 : lo n p k ≤ lo n p (k + 1) := shareRange_monotone n p k (k + 1) (Nat.le_succ k)
+      rw [h1]
+      have := @List.range'_append_1 0 (lo n p k) (lo n p (k + 1) - lo n p k)
+      simp only [Nat.zero_add] at this
+      rw [this]
+      congr 1; omega
+  rw [key p, shareRange_ends_at_n n p hp, List.range_eq_range']
+
+/-- **local_results_independent_of_partition**: for every number of tasks `p ≥ 1` (also `p` larger than the number
+    of samples: empty tasks), mirrored or not, the `(y, neg)` pairs of all tasks in rank order are exactly
+    `(draw (seedIdx i), isNeg i)` for `i = 0, 1, …` — the list the single-process loop produces -/
+theorem local_results_independent_of_partition {Y} (draw : Nat → Y) (mirror : Bool) (nSamples p : Nat) (hp : 0 < p) :
+    allSamples draw mirror nSamples p = (List.range (nWork mirror nSamples)).map (spec draw mirror) := by
+  unfold allSamples
+  have : localSamples draw mirror nSamples p =
+      fun r => (localIndices (nWork mirror nSamples) p r).map (spec draw mirror) := by
+    funext r
+    unfold localSamples localIndices
+    exact loop_spec draw mirror _ _ none (Or.inl rfl)
+  rw [this, ← List.map_flatMap, localIndices_concat _ p hp]
+
+/-- in particular any two task counts give the same list -/
+theorem samples_same_for_all_task_counts {Y} (draw : Nat → Y) (mirror : Bool) (nSamples p q : Nat)
+    (hp : 0 < p) (hq : 0 < q) : allSamples draw mirror nSamples p = allSamples draw mirror nSamples q := by
+  rw [local_results_independent_of_partition draw mirror nSamples p hp,
+    local_results_independent_of_partition draw mirror nSamples q hq]
+
+/-- **local_indices_eq_shareRange**: the global indices a sample list assigns to its local samples
+    (`_compute_local_indices`: prefix sum over the allgathered local counts) are the shareRange indices again -/
+theorem local_indices_eq_shareRange (n p r : Nat) (hr : r < p) :
+    computeLocalIndices ((List.range p).map (fun t => (localIndices n p t).length)) r = localIndices n p r := by
+  have hlen : ∀ t, (localIndices n p t).length = lo n p (t + 1) - lo n p t := by
+    intro t; rw [localIndices_eq, List.length_range']
+  have hsum : ∀ k, ((List.range k).map (fun t => (localIndices n p t).length)).foldl (· + ·) 0 = lo n p k := by
+    intro k
+    induction k with
+    | zero => simp [shareRange_starts_at_zero]
+    | succ k ih =>
+      rw [List.range_succ, List.map_append, List.foldl_append, ih]
+      have h2 : lo n p k ≤ lo n p (k + 1) := shareRange_monotone n p k (k + 1) (Nat.le_succ k)
+      simp only [List.map_cons, List.map_nil, List.foldl_cons, List.foldl_nil, hlen]
+      omega
+  unfold computeLocalIndices
+  rw [← List.map_take, List.take_range, Nat.min_eq_left (Nat.le_of_lt hr), hsum]
+  have : ((List.range p).map (fun t => (localIndices n p t).length)).getD r 0 = (localIndices n p r).length := by
+    simp [List.getD, hr]
+  rw [this, hlen, localIndices_eq]
+
+/-- **distributed_average_eq_serial**: the per-sample results `f (y, neg)` of all tasks, reduced by the distributed
+    `allreduce_sum` under ANY interleaving (synchronous sends, any split of transfers into sub-messages) with the
+    ordered partition induced by the tasks' local counts, give exactly the value the single-process code computes:
+    the same fixed tree over the same leaves — so the same floating-point bits, whatever `add` is -/
+theorem distributed_average_eq_serial {Y α} (add : α → α → α) (f : Y × Bool → α) (d : Y × Bool)
+    (draw : Nat → Y) (mirror : Bool) (nSamples p : Nat) (hp : 0 < p) (hn : 0 < nWork mirror nSamples)
+    (who : Nat → Nat) (m : Nat) (hm : 0 < m) {k st}
+    (h : Reach who (expand who m (events (nWork mirror nSamples))) (initStore (nWork mirror nSamples)) k st)
+    (hmax : ¬ ∃ st', Step st st') :
+    (st.store 0).map (T.eval add (fun i => f ((allSamples draw mirror nSamples p).getD i d))) =
+      some ((pairwiseTree (nWork mirror nSamples)).eval add
+        (fun i => f ((allSamples draw mirror nSamples 1).getD i d))) := by
+  rw [(NiftyVerif.C23.allreduce_all_schedules _ hn who m hm h hmax).2,
+    samples_same_for_all_task_counts draw mirror nSamples p 1 hp (by decide)]
+  rfl
+
+-- non-vacuity: 3 mirrored samples (6 work items) over 4 tasks: ranges [0,2) [2,4) [4,5) [5,6); task 3 starts at the
+-- odd index 5 and redraws seed 2
+example : (List.range 4).map (localIndices 6 4) = [[0, 1], [2, 3], [4], [5]] := by decide
+example : allSamples (fun s => 10 * s) true 3 4 =
+    [(0, false), (0, true), (10, false), (10, true), (20, false), (20, true)] := by decide
+example : localSamples (fun s => 10 * s) true 3 4 3 = [(20, true)] := by decide
+
+/-! ### Part 3: the MAP path, `_single_value_sample_list` and the sync checks -/
+
+section Sync
+variable {V R : Type} [DecidableEq V] [DecidableEq R]
+
+theorem synced_iff (w : World V R) :
+    synced w = true ↔ ∀ s ∈ w.others, pickleForm s.mean = pickleForm w.master.mean ∧ s.rng = w.master.rng := by
+  simp [synced, List.all_eq_true]
+
+/-- one iteration with mpi4py's broadcast keeps all tasks in sync and its internal check passes -/
+theorem iterate_keeps_sync (mapStep klStep : V → V) (tick : R → R) (m : Mode) (w : World V R) (h : synced w = true) :
+    synced (iterate bcastCopy mapStep klStep tick m w).1 = true ∧ (iterate bcastCopy mapStep klStep tick m w).2 = true := by
+  rw [synced_iff] at h
+  cases m with
+  | sampled =>
+    refine ⟨?_, rfl⟩
+    rw [synced_iff]
+    intro s hs
+    simp only [iterate, List.mem_map] at hs
+    obtain ⟨s0, hs0, rfl⟩ := hs
+    obtain ⟨h1, h2⟩ := h s0 hs0
+    have hv : s0.mean.val = w.master.mean.val := congrArg Prod.fst h1
+    simp [iterate, pickleForm, hv, h2]
+  | map =>
+    have key : synced (iterate bcastCopy mapStep klStep tick .map w).1 = true := by
+      rw [synced_iff]
+      intro s hs
+      simp only [iterate, List.mem_map] at hs
+      obtain ⟨s0, hs0, rfl⟩ := hs
+      simp [iterate, bcastCopy, (h s0 hs0).2]
+    exact ⟨key, key⟩
+
+/-- **sync_checks_never_fire**: for ANY number of tasks (`w.others` arbitrary: one task, two, more tasks than samples…)
+    and ANY sequence of MAP and sampled iterations, starting in sync, none of `check_MPI_equality`,
+    `check_MPI_synced_random_state` and the check inside `_single_value_sample_list` ever raises -/
+theorem sync_checks_never_fire (mapStep klStep : V → V) (tick : R → R) :
+    ∀ (modes : List Mode) (w : World V R), synced w = true → checksPass bcastCopy mapStep klStep tick modes w = true := by
+  intro modes
+  induction modes with
+  | nil => intro w _; rfl
+  | cons m ms ih =>
+    intro w h
+    obtain ⟨h1, h2⟩ := iterate_keeps_sync mapStep klStep tick m w h
+    simp only [checksPass, h, h2, Bool.true_and]
+    exact ih _ h1
+
+/-- **root_keeps_object_breaks_sync**: with a communicator whose `bcast` leaves the root's own object in place (NOT what
+    mpi4py or `mpi4py.util.pkl5` do), the MAP branch fails its own "MPI tasks are not in sync" check as soon as there is
+    a second task — the root holds a freshly built mean, everybody else an unpickled copy, and their pickles differ.
+    This is the failure a seeding agent observed with an emulated 2-task communicator: an artefact of that emulation. -/
+theorem root_keeps_object_breaks_sync (mapStep klStep : V → V) (tick : R → R) (w : World V R) (s : RankSt V R)
+    (rest : List (RankSt V R)) (hw : w.others = s :: rest) :
+    (iterate bcastRootKeeps mapStep klStep tick .map w).2 = false := by
+  simp [iterate, synced, hw, bcastRootKeeps, pickleForm, roundTrip]
+
+end Sync
+
+/-- **single_value_list**: `_single_value_sample_list` on `p ≥ 1` tasks is a sample list with exactly one sample: the
+    local counts sum to 1, the master's local index list is `[0]`, every other task's is empty (more tasks than samples) -/
+theorem single_value_list (p : Nat) (hp : 0 < p) :
+    (singleValueCounts p).foldl (· + ·) 0 = 1 ∧ computeLocalIndices (singleValueCounts p) 0 = [0] ∧
+    ∀ r, 0 < r → r < p → computeLocalIndices (singleValueCounts p) r = [] := by
+  obtain ⟨q, rfl⟩ : ∃ q, p = q + 1 := ⟨p - 1, by omega⟩
+  have hcounts : singleValueCounts (q + 1) = 1 :: List.replicate q 0 := by
+    unfold singleValueCounts
+    rw [List.range_succ_eq_map]
+    simp only [List.map_cons, List.map_map, if_true]
+    congr 1
+    rw [List.eq_replicate_iff]
+    exact ⟨by simp, by intro b hb; simp only [List.mem_map, List.mem_range, Function.comp] at hb; obtain ⟨a, _, rfl⟩ := hb; simp⟩
+  have hfold : ∀ (l : List Nat) (a : Nat), (∀ x ∈ l, x = 0) → l.foldl (· + ·) a = a := by
+    intro l
+    induction l with
+    | nil => intro a _; rfl
+    | cons x l ih => intro a h; simp only [List.foldl_cons]; rw [h x (List.mem_cons_self ..)]; exact ih a (fun y hy => h y (List.mem_cons_of_mem _ hy))
+  refine ⟨?_, ?_, ?_⟩
+  · rw [hcounts]; simp only [List.foldl_cons]; exact hfold _ _ (fun x hx => List.eq_of_mem_replicate hx)
+  · rw [hcounts]; simp [computeLocalIndices]
+  · intro r hr hrp
+    rw [hcounts]
+    obtain ⟨r', rfl⟩ : ∃ r', r = r' + 1 := ⟨r - 1, by omega⟩
+    simp only [computeLocalIndices, List.getD_cons_succ]
+    have : (List.replicate q 0).getD r' 0 = 0 := by
+      simp only [List.getD_eq_getElem?_getD, List.getElem?_replicate]
+      split <;> rfl
+    rw [this]; rfl
+
+-- non-vacuity: two tasks, MAP then sampled then MAP: all checks pass with mpi4py's broadcast, the first one fails otherwise
+example : checksPass (V := Nat) (R := Nat) bcastCopy (· + 1) (· * 2) (· + 1) [.map, .sampled, .map]
+    ⟨⟨⟨5, .fresh⟩, 0⟩, [⟨⟨5, .fresh⟩, 0⟩]⟩ = true := by decide
+example : checksPass (V := Nat) (R := Nat) bcastRootKeeps (· + 1) (· * 2) (· + 1) [.map]
+    ⟨⟨⟨5, .fresh⟩, 0⟩, [⟨⟨5, .fresh⟩, 0⟩]⟩ = false := by decide
+example : singleValueCounts 4 = [1, 0, 0, 0] := by decide
 
 end NiftyVerif.C22
